@@ -169,7 +169,7 @@ func (c07Prop) Execute(p *Plan, run *Run) any {
 	codec := c.Codec()
 
 	// ---- fault-free clause
-	full := readAll(target, openReader(data, pl.Chunks), -1, nil)
+	full := readAllOut(target, pl.Chunks.OutPtr, openReader(data, pl.Chunks), -1, nil)
 	run.Evals++
 	var total int64
 	cum := make([]int64, len(c.Blocks)+1) // records before block j
@@ -287,7 +287,7 @@ func (c07Prop) Execute(p *Plan, run *Run) any {
 			if s.Off < c.SyncOff || s.Off >= len(data) {
 				continue
 			}
-			out := readAll(target, openReader(flip(s.Off, s.Bit), pl.Chunks), -1, nil)
+			out := readAllOut(target, pl.Chunks.OutPtr, openReader(flip(s.Off, s.Bit), pl.Chunks), -1, nil)
 			run.Evals++
 			executed++
 			j := blockOfOff(s.Off)
@@ -327,7 +327,7 @@ func (c07Prop) Execute(p *Plan, run *Run) any {
 			if j < 0 {
 				continue
 			}
-			out := readAll(target, openReader(flip(s.Off, s.Bit), pl.Chunks), -1, nil)
+			out := readAllOut(target, pl.Chunks.OutPtr, openReader(flip(s.Off, s.Bit), pl.Chunks), -1, nil)
 			run.Evals++
 			executed++
 			run.Faults.Inc("S-flip(snappy-crc)")
@@ -370,7 +370,7 @@ func (c07Prop) Execute(p *Plan, run *Run) any {
 				run.Log.Add("payload off=%d bit=%d accepted", s.Off, s.Bit)
 				continue
 			}
-			out := readAll(target, openReader(d, pl.Chunks), -1, nil)
+			out := readAllOut(target, pl.Chunks.OutPtr, openReader(d, pl.Chunks), -1, nil)
 			run.Evals++
 			executed++
 			run.Faults.Inc("S-flip(compressed-payload)")
@@ -394,7 +394,7 @@ func (c07Prop) Execute(p *Plan, run *Run) any {
 			if s.Off > 3 {
 				continue
 			}
-			out := readAll(target, openReader(flip(s.Off, s.Bit), pl.Chunks), -1, nil)
+			out := readAllOut(target, pl.Chunks.OutPtr, openReader(flip(s.Off, s.Bit), pl.Chunks), -1, nil)
 			run.Evals++
 			executed++
 			run.Faults.Inc("S-flip(magic)")
@@ -431,7 +431,7 @@ func (c07Prop) Execute(p *Plan, run *Run) any {
 			}
 		}
 		d := ref.WriteContainer(ref.Magic, meta, c.Sync, blocks)
-		out := readAll(target, openReader(d, pl.Chunks), -1, nil)
+		out := readAllOut(target, pl.Chunks.OutPtr, openReader(d, pl.Chunks), -1, nil)
 		run.Evals++
 		executed++
 		run.Faults.Inc("S-meta(" + pl.Family + ")")
@@ -480,7 +480,7 @@ func (c07Prop) Execute(p *Plan, run *Run) any {
 			if i >= len(D) {
 				continue
 			}
-			out := readAll(target, openReader(data, pl.Chunks), i, cbErr)
+			out := readAllOut(target, pl.Chunks.OutPtr, openReader(data, pl.Chunks), i, cbErr)
 			run.Evals++
 			executed++
 			run.Faults.Inc("CB-err(i)")
